@@ -6,7 +6,7 @@ ENGINES = [
      "kind_free_text": "stateless DFS over choice points of the real code, weighted, deviation-bounded"},
     {"name": "E2-bfs", "path": "mc/explore_bfs.py", "serves_properties": ["C09", "C18", "C19"],
      "kind_free_text": "explicit-state BFS over operation histories of real objects (replay from scratch, canonical-form dedup)"},
-    {"name": "lattice", "path": "mc/lattice.py", "serves_properties": ["C02", "C03", "C04", "C05", "C06", "C07", "C08", "C10", "C11", "C20"],
+    {"name": "lattice", "path": "mc/lattice.py", "serves_properties": ["C02", "C03", "C04", "C05", "C06", "C07", "C08", "C10", "C11", "C16", "C17", "C20"],
      "kind_free_text": "complete enumeration of a finite configuration / program lattice against an independent reference"},
 ]
 NOTES = ("All checks explore the real mici code imported from /repo/src; no abstract model. "
@@ -84,6 +84,18 @@ CLAIMED = {
         technique="exhaustive enumeration of (callback, call index, fault kind) injection points inside driver chains and inside direct solver calls",
         text="For 9 integrator/system/solver combinations x 4 transition types, a fault-free run counts the calls of every user callback (density, gradient, constraint, Jacobian, metric, Hessian, VJP/MHP/MTP and their returned closures) inside the integration transition; then for every call index and every fault kind (NaN, +inf, -inf; ValueError and LinAlgError while a solve_* frame is active; forced non-convergence at every solver call index) the run is repeated. Oracle: sample returns, state finite and equal to the pre-transition state or a completed step, matching error flag set and accept_stat 0, Metropolis does not move after an integrator error, the chain continues. The five solvers are also called directly under the same fault menu: only ConvergenceError may escape and any return must satisfy the convergence criterion re-evaluated fault-free.",
         note="Quick tier arms faults in the first iteration only; exceptions are injected only inside iterative solves as the property states.",
+    ),
+    "C16": dict(
+        engine="lattice", category="model_checking", design_ref="DESIGN.md section 4 (C16)",
+        technique="exhaustive enumeration of the stager's input space (pure function) plus complete product of real sequential sampling runs observed through recording adapters and a recording transition (run-time monitor on every run)",
+        text="(i) Stager.stages is enumerated over n_warm_up 0..400 and {1000,1003}, n_main {0,1,7}, window settings and multipliers, five adapter mixes and trace_warm_up: warm-up lengths sum exactly, the last stage is the non-adaptive main stage, slow adapters only in slow windows, fast adapters in all warm-up stages, termination under a watchdog. (ii) real sample_chains runs over n_warm_up {0..12,20(,150)} x n_main {0,1,3} x chains {1,2} x four stager choices x five adapter mixes with recording subclasses of the three adapters and a recording wrapper around the integration transition: no adapter activity in the main stage, step size and metric constant there and equal to the values left by the finalize of the last warm-up stage that performed an update (initial values if none).",
+        note="AdaptationError raised to the caller is counted as an explicit refusal, not judged.",
+    ),
+    "C17": dict(
+        engine="lattice", category="exploration", design_ref="DESIGN.md section 5 (C17)",
+        technique="exhaustive enumeration of acceptance-statistic sequences, environment answer tables for the initial search, and position sequences x ordered chain partitions; reference recursion / exact rational arithmetic oracle",
+        text="Dual averaging: every accept-statistic sequence over {0,0.25,0.8,1} up to length 5 (6 thorough) x settings lattice through the real initialize/update/finalize against a 10-line reference recursion, every reducer over 1..3 chains. Initial search: all 4^7 environment tables (energy change at step size 2^k is small / large / NaN / step fails) - the returned step size must sit at a crossing of log 2 or AdaptationError be raised. Variance and covariance adapters: every sequence of 2..4 (5) positions from plain and offset-1e6 alphabets, every ordered assignment to <= 3 chains, three regularisations; the metric must equal the inverse of the exactly (rationally) computed regularised pooled estimate and momenta must be refreshed under the new metric.",
+        note="Alphabets are finite; tolerance 1e-9 relative scaled by conditioning.",
     ),
     "C18": dict(
         engine="E2-bfs", category="model_checking", design_ref="DESIGN.md section 4 (C18)",
